@@ -4,7 +4,7 @@
 patch="$1"; shift
 cd /verif || exit 2
 if ! git -C /repo diff --quiet; then echo "/repo is dirty" >&2; exit 2; fi
-git -C /repo apply "$patch" || { echo "cannot apply $patch" >&2; exit 2; }
+git -C /repo apply "$patch" 2>/dev/null || (cd /repo && patch -p1 -s -F 3 --no-backup-if-mismatch < "$patch" >/dev/null 2>&1) || { echo "cannot apply $patch" >&2; git -C /repo checkout -- .; exit 2; }
 for id in "$@"; do
   out=$(./run.sh "$id" quick 2>&1); code=$?
   detail=$(printf '%s\n' "$out" | grep -A1 '^VIOLATION' | head -2 | tr '\n' ' ' | cut -c1-400)
